@@ -3,6 +3,9 @@ pub mod c01;
 pub mod c02;
 pub mod c03;
 pub mod c04;
+pub mod c05;
+pub mod c06;
+pub mod regtable;
 pub mod c10;
 pub mod c11;
 pub mod c12;
@@ -12,7 +15,7 @@ pub mod c15;
 use crate::engine::Property;
 
 pub fn all_ids() -> Vec<&'static str> {
-    vec!["C01", "C02", "C03", "C04", "C10", "C11", "C12", "C13", "C15"]
+    vec!["C01", "C02", "C03", "C04", "C05", "C06", "C10", "C11", "C12", "C13", "C15"]
 }
 
 pub fn get(id: &str) -> Option<Property> {
@@ -21,6 +24,8 @@ pub fn get(id: &str) -> Option<Property> {
         "C02" => Some(c02::property()),
         "C03" => Some(c03::property()),
         "C04" => Some(c04::property()),
+        "C05" => Some(c05::property()),
+        "C06" => Some(c06::property()),
         "C10" => Some(c10::property()),
         "C11" => Some(c11::property()),
         "C12" => Some(c12::property()),
